@@ -2,6 +2,8 @@
 
 package transformer
 
+import "github.com/antlr4-go/antlr/v4"
+
 // VerifListenerTrace, when non-nil, receives one event per relation-level listener callback: the callback, its arguments
 // and the projection of the listener state after it (number of collected rewrites, current operator, depth of the
 // rewrite stack). Only compiled with the build tag `verif`; process-global, for a single-threaded harness.
@@ -18,4 +20,18 @@ func verifTraceListener(l *OpenFgaDslListener, event string, args ...string) {
 	}
 
 	VerifListenerTrace(event, args, rewrites, operator, len(l.rewriteStack))
+}
+
+// VerifTokens, when non-nil, receives the tokens the lexer produced for the (comment-stripped) input of ParseDSL, after
+// the parse: token type, text, zero-based line, column, channel.
+var VerifTokens func(tokenType int, text string, line, column, channel int)
+
+func verifObserveTokens(stream *antlr.CommonTokenStream) {
+	if VerifTokens == nil {
+		return
+	}
+
+	for _, tok := range stream.GetAllTokens() {
+		VerifTokens(tok.GetTokenType(), tok.GetText(), tok.GetLine()-1, tok.GetColumn(), tok.GetChannel())
+	}
 }
